@@ -41,6 +41,9 @@ def sizes():
     out = []
     for b in sorted({B, 8192}):
         out += [b - 1, b, b + 1, 2 * b - 1, 2 * b, 2 * b + 1, 3 * b + 7]
+    # sizes around the thresholds a "use another path for large objects" optimisation would pick (64 KiB, 1 MiB), and the
+    # shutil.copyfileobj / sendfile chunk sizes
+    out += [65535, 65536, 65537, 1048575, 1048576, 1048577, 2 * 1048576 + 3]
     return sorted(set([0, 1] + out))
 
 
